@@ -16,7 +16,7 @@
   branch fix-C15).  Reference: IgrisModel/C15/Spec.lean (a zipper with a
   capacity, a list of remembered lines, a key decoder).
 -/
-import IgrisModel.C15.Lemmas4
+import IgrisModel.C15.Lemmas6
 namespace Igris.C15
 open Igris.Proto
 
@@ -144,5 +144,60 @@ example :
     ((Vterm.init 4 2 false).run
       ([[0x61], [0x62, 0x63], [0x64]].flatMap (· ++ [CR]) ++ (List.replicate 2 UP).flatten)).rl.curhist = 2 := by
   decide
+
+/-! ### the echoed output on a VT100 screen -/
+
+/-- THE SCREEN SHOWS THE LINE AND THE CURSOR.  Feed every byte the terminal
+passes to the write callback, from the very first call on, to the one-row VT100
+screen model (`Screen`: printable, CR, LF, ESC[nD, ESC[nC, ESC[K; column
+clamped at 0).  For every key sequence made of keys a terminal can show
+(printable ASCII, BS, CR, LF, ESC, Ctrl-C — in any order, so every escape
+sequence, complete or not), every printable prompt, capacity ≥ 1, depth
+1..255, both variants: after every key
+  * in state 2 (always, for vterm.c, once a key was typed — `screen_matches_c`)
+    the row is exactly  prompt ++ line  and the cursor column is
+    |prompt| + cursor, the screen's escape parser is in its ground state;
+  * while igris::vtermxx still owes the prompt after Enter (state 1) — and
+    before the first call (state 0) — the row is blank, cursor in column 0. -/
+theorem screen_matches (cap depth : Nat) (hcap : 1 ≤ cap) (hd : 1 ≤ depth) (hd2 : depth ≤ 255) (cxx : Bool)
+    (prompt : List Byte) (keys : List Byte) (hP : AllP prompt) (hk : ∀ k ∈ keys, screenKey k = true) :
+    let v0 := Vterm.init cap depth cxx prompt
+    let v := v0.run keys
+    let scr := Screen.blank.feed (v0.echoed keys)
+    (v.state = 2 → scr = ⟨prompt ++ v.rl.line.text, prompt.length + v.rl.line.cursor, .ground⟩) ∧
+    (v.state ≠ 2 → scr = ⟨[], 0, .ground⟩) := by
+  have h0 := init_sim cap depth hcap hd hd2 cxx prompt
+  obtain ⟨s1, s2⟩ := screen_run cap depth hd hd2 (Vterm.init cap depth cxx prompt) (Ref.init depth) Screen.blank keys
+    h0 (refP_init depth) rfl hP hk (by unfold SInv; rw [if_neg (show ¬ ((Vterm.init cap depth cxx prompt).state = 2) from fun e => by simp [Vterm.init] at e)]; rfl)
+  exact screen_of_sim cap depth prompt _ _ _ s2 s1
+
+/-- vterm.c: after every non-empty key sequence the screen shows prompt ++ line
+with the cursor at |prompt| + cursor -/
+theorem screen_matches_c (cap depth : Nat) (hcap : 1 ≤ cap) (hd : 1 ≤ depth) (hd2 : depth ≤ 255)
+    (prompt : List Byte) (keys : List Byte) (hP : AllP prompt) (hk : ∀ k ∈ keys, screenKey k = true)
+    (hne : keys ≠ []) :
+    Screen.blank.feed ((Vterm.init cap depth false prompt).echoed keys) =
+      ⟨prompt ++ ((Vterm.init cap depth false prompt).run keys).rl.line.text,
+       prompt.length + ((Vterm.init cap depth false prompt).run keys).rl.line.cursor, .ground⟩ :=
+  (screen_matches cap depth hcap hd hd2 false prompt keys hP hk).1
+    (run_state_c cap depth hd hd2 _ _ (init_sim cap depth hcap hd hd2 false prompt) rfl keys hne)
+
+/-- non-vacuity, and the two defects repaired in fix-C15 as concrete sessions:
+"abc", Left, Left, "x" on a 6-byte line: the row reads "$ axbc", cursor after the x -/
+example : Screen.blank.feed ((Vterm.init 6 2 false).echoed [0x61, 0x62, 0x63, ESC, 0x5b, 0x44, ESC, 0x5b, 0x44, 0x78]) =
+    ⟨[0x24, 0x20, 0x61, 0x78, 0x62, 0x63], 4, .ground⟩ := by decide
+
+/-- "ab", Enter, Up, Left, Up (recall with the cursor mid-line): the prompt survives -/
+example : Screen.blank.feed ((Vterm.init 4 2 false).echoed
+      [0x61, 0x62, CR, ESC, 0x5b, 0x41, ESC, 0x5b, 0x44, ESC, 0x5b, 0x41]) = ⟨[0x24, 0x20], 2, .ground⟩ := by decide
+
+/-- The hypothesis on the keys is needed: a byte a terminal cannot show (TAB) is
+stored in the line and echoed, and the screen model ignores it — the row then
+differs from prompt ++ line.  (Recorded as the limit of the screen clause, not
+as a defect: the line handed to execute is still the reference line.) -/
+theorem screen_matches_witness_unprintable :
+    Screen.blank.feed ((Vterm.init 4 1 false).echoed [0x09]) ≠
+      ⟨[0x24, 0x20] ++ ((Vterm.init 4 1 false).run [0x09]).rl.line.text,
+       2 + ((Vterm.init 4 1 false).run [0x09]).rl.line.cursor, .ground⟩ := by decide
 
 end Igris.C15
